@@ -120,6 +120,7 @@ def run_system(text, ops_seed, sched_kwargs, n_generators=1, faults=None, props=
     fractions, M_sys = system_model(ast, system_molweight)
     sched = Scheduler(**sched_kwargs)
     world = World(sched, embed=embed)
+    world.draw_limit = 10 ** 7
     viols = []
     stats = {"runs": 1, "yields": 0, "generator_resumptions": 0, "generator_switches": 0, "generators": 0}
     rnd = random.Random(ops_seed)
